@@ -230,7 +230,7 @@ func run(r *core.Run) int {
 	r.Exhaustive(true)
 	type shard struct{ evals, nontriv int }
 	shards := make([]shard, len(chains))
-	core.Parallel(len(chains), func(i int) {
+	r.Parallel(len(chains), func(i int) {
 		for _, t := range trusts {
 			c := &Case{Chain: chains[i], Trust: t, Pool: n}
 			if !judge(r, c) {
